@@ -366,6 +366,19 @@ def d30_runs(chunks, a, b):
     return shapes, override
 
 
+def in_quantifier(c):
+    """narrow/double-width/combining characters only, `width`, `width_at_offset(n >= 0)`, column ranges 0 <= a <= b <= width+2"""
+    if c["op"] not in ("width", "widthat", "slice"):
+        return False
+    ws = [wc(ch) for ch in text_of(c["f"])]
+    if any(w not in (0, 1, 2) for w in ws):
+        return False
+    if c["op"] == "slice":
+        a, b = c["a"], c["b"]
+        return a is not None and b is not None and 0 <= a <= b <= sum(ws) + 2
+    return c["op"] == "width" or c["n"] >= 0
+
+
 def footprint(c, what):
     if what.startswith(D30_MSG):
         return D30          # the oracle has checked that the result equals the D30-explained expectation exactly
@@ -415,8 +428,13 @@ def check(ctx):
     self_check(ctx)
     pyte_width_crosscheck(ctx)
     cases, extra = mk_cases(ctx)
-    ctx.tie("C10/ops", cases, line, impl, canon, canon)
-    ctx.tie("C10/extras", extra, line, impl, canon, canon)
+    inside = [c for c in cases if in_quantifier(c)]
+    outside = [c for c in cases if not in_quantifier(c)] + list(extra)
+    # property level: what the theorems speak about (numbers; per-character cells of a slice), inputs inside the quantifier
+    ctx.tie("C10/ops", inside, line, impl, canon, canon)
+    # representation level: inputs outside the quantifier (control characters -> exception kinds, None/negative/reversed
+    # bounds, int indices) and the internal helpers width_aware_slice()/interval_overlap(); never a verdict by itself
+    ctx.tie("C10/outside-quantifier", outside, line, impl, canon, canon, level="representation")
     for c in cases:
         w = oracle(c)
         ctx.count(c, nontrivial=nontrivial(c), tag=c["op"])
